@@ -208,11 +208,17 @@ func (r Rule) Apply(facts *FactSet, newFacts *FactSet, syms *SymbolTable) error 
 		}
 	}
 
-	// closed on return so that the producer goroutine is never left blocked on a send
 	stop := make(chan struct{})
-	defer close(stop)
-
 	combinations := combine(variables, r.Body, r.Expressions, facts, syms, stop)
+
+	// the producer goroutine never outlives Apply: on return it is told to stop and waited for, so
+	// that it is neither left blocked on a send nor left evaluating expressions (which may write to
+	// the symbol table) behind the caller's back
+	defer func() {
+		close(stop)
+		for range combinations {
+		}
+	}()
 
 	for res := range combinations {
 		if res.error != nil {
@@ -511,8 +517,20 @@ func combine(variables MatchedVariables, predicates []Predicate, expressions []E
 			return
 		}
 
+		stopped := func() bool {
+			select {
+			case <-stop:
+				return true
+			default:
+				return false
+			}
+		}
+
 		// main loop
 		for {
+			if stopped() {
+				return
+			}
 			if len(predicates) > 0 && len(*facts) > 0 {
 				// look for the next matching set of facts
 				// current indicates which predicate we are looking at, and indexes contains
@@ -530,7 +548,7 @@ func combine(variables MatchedVariables, predicates []Predicate, expressions []E
 					} else {
 						// did not match, we either increase the current index or the previous one
 						// then we check again for a match
-						if !advanceIndexes(&current, &indexes, facts) {
+						if stopped() || !advanceIndexes(&current, &indexes, facts) {
 							return
 						}
 					}
